@@ -4,6 +4,7 @@ import (
 	"fmt"
 	"go/token"
 	"go/types"
+	"morlockverif/checker/internal/core"
 	"strings"
 
 	"golang.org/x/tools/go/ssa"
@@ -98,9 +99,9 @@ func runC17(c *Ctx) {
 	r.Rule("R17-used", "every field of the table written after construction is accessed only atomically (and, for raw 64-bit atomics, is 64-bit aligned on this build configuration); the fill counter is incremented only when the swap won an empty slot", 2)
 	r.Rule("R17-wrappers", "WriteLimited and NoTranspositionTable carry no mutable state", 1)
 
-	tableT := c.P.NamedType("pkg/search", "table")
-	nodeT := c.P.NamedType("pkg/search", "node")
-	metaT := c.P.NamedType("pkg/search", "metadata")
+	tableT := c.namedType("pkg/search", "table")
+	nodeT := c.namedType("pkg/search", "node")
+	metaT := c.namedType("pkg/search", "metadata")
 	read := c.fn("R17-single-load", "pkg/search", "table", "Read")
 	write := c.fn("R17-replace", "pkg/search", "table", "Write")
 	used := c.fn("R17-used", "pkg/search", "table", "Used")
@@ -124,7 +125,7 @@ func runC17(c *Ctx) {
 		if _, fresh := isFreshAlloc(fs.Base); fresh {
 			continue
 		}
-		bad = append(bad, fmt.Sprintf("%s writes %s.%s at %s", c.P.FuncName(fs.Fn), fs.Named.Obj().Name(), fs.Field, c.pos(fs.Pos)))
+		bad = append(bad, fmt.Sprintf("%s writes %s.%s at %s", c.P.FuncName(fs.Fn), core.ObjName(fs.Named.Obj()), fs.Field, c.pos(fs.Pos)))
 	}
 	r.Check(len(bad) == 0 && n > 0, "R17-immutable", "table entries are immutable after creation", c.pos(nodeT.Obj().Pos()), "", strings.Join(bad, "; "))
 
@@ -389,7 +390,7 @@ func runC17(c *Ctx) {
 					if !ok || namedOf(fa.X.Type()) == nil || namedOf(fa.X.Type()).Obj() != tableT.Obj() {
 						continue
 					}
-					fname := tst.Field(fa.Field).Name()
+					fname := core.FieldName(tst.Field(fa.Field))
 					ft := tst.Field(fa.Field).Type()
 					isAtomicType := false
 					if nt, ok := ft.(*types.Named); ok && nt.Obj().Pkg() != nil && nt.Obj().Pkg().Path() == "sync/atomic" {
@@ -436,7 +437,7 @@ func runC17(c *Ctx) {
 					if !ok || namedOf(fa.X.Type()) == nil || namedOf(fa.X.Type()).Obj() != tableT.Obj() {
 						continue
 					}
-					fname := tst.Field(fa.Field).Name()
+					fname := core.FieldName(tst.Field(fa.Field))
 					if !(postCtor[fname] || atomicFields[fname]) {
 						continue
 					}
@@ -520,7 +521,7 @@ func runC17(c *Ctx) {
 			if fs.Named == nil || fs.Named.Obj().Pkg() == nil || !strings.HasSuffix(fs.Named.Obj().Pkg().Path(), "/pkg/search") {
 				continue
 			}
-			nm := fs.Named.Obj().Name()
+			nm := core.ObjName(fs.Named.Obj())
 			if nm != "WriteLimited" && nm != "NoTranspositionTable" {
 				continue
 			}
